@@ -80,7 +80,11 @@ ModuleDrift(mf) ==
        IN hits = {} \/ \E j \in hits : ~ItemMatches(mf.items[k].item, obsItems[j].it)
 PathDrift == \E id \in Ids(Reg) :
                LET r == ResolveTypePath(Reg, S, id)  o == Run.paths[id + 1] IN
-               IF r.err = "" THEN o.res # "ok" \/ o.ty # r.ty
+               IF r.err = "" THEN \/ o.res # "ok" \/ o.ty # r.ty
+                                  \* the accessors of TypePath (is_compact, is_string, is_uint_up_to_u128, vec_type_param) follow the resolved kind
+                                  \/ o.is_compact # (r.kind = "compact") \/ o.is_string # (r.kind = "prim:str")
+                                  \/ o.is_uint # (r.kind \in {"prim:" \o p : p \in UnsignedPrims})
+                                  \/ o.vec_of # (IF r.kind = "vec" THEN r.ty.args[1] ELSE [k |-> "none"])
                ELSE o.res # r.err \/ (r.err = "TypeNotFound" /\ o.id # r.errid)
 Drift == LET mf == ModelFinal IN
          \/ rejected
